@@ -264,6 +264,20 @@ fn class_count(ds: &PartialDSym, k: usize, cap: usize) -> usize {
     coset_tables(fg.nr_generators(), &fg.relators, k).take(cap).count()
 }
 
+/// The space-group invariant table, read from the repository's data file
+/// (coverage / classification instrument only).
+pub fn invariant_table() -> &'static std::collections::BTreeSet<String> {
+    static TABLE: std::sync::OnceLock<std::collections::BTreeSet<String>> = std::sync::OnceLock::new();
+    TABLE.get_or_init(|| {
+        std::fs::read_to_string(format!("{}/src/data/euclideanInvariants.data", crate::check::repo_path()))
+            .unwrap_or_default()
+            .split_whitespace()
+            .filter(|s| !s.starts_with('#') && s.ends_with('/'))
+            .map(|s| s.to_string())
+            .collect()
+    })
+}
+
 /// The lookup key of `is_euclidean` (euclidicity::orbifold_invariant is
 /// private): same recipe, public API.
 pub fn orbifold_invariant_string(ds: &PartialDSym) -> String {
@@ -519,6 +533,13 @@ impl Executor {
                 rec.out_fp = fnv64(format!("{}:{}", class, reason).as_bytes());
                 if spec.known_euclidean && class != "yes" {
                     rec.failures.push((format!("O17.5:known-euclidean-got-{}", class), reason.clone()));
+                }
+                if spec.classify {
+                    let ds = s.to_partial();
+                    let inv = std::panic::catch_unwind(std::panic::AssertUnwindSafe(|| orbifold_invariant_string(&ds)));
+                    if let Ok(inv) = inv {
+                        rec.notes.push(if invariant_table().contains(&inv) { "filter:pass".into() } else { "filter:fail".into() });
+                    }
                 }
                 if class == "yes" && spec.want_inv {
                     // coverage instrument only (never an oracle): the invariant
